@@ -1,6 +1,6 @@
 // Probe of the UNMODIFIED library for cases, covered by the property, that it gets wrong.
 // Prints what it observes; exit code = number of deviations seen.
-#include "../explicit_poisson.h"
+#include "explicit_poisson.h"
 #include <functional>
 
 using namespace seed;
